@@ -599,7 +599,7 @@ func runEvalCase(c *Ctx, e *ex, expr string, m string, binds []binding, label st
 		return
 	}
 	if c.Prop == "C01" {
-		reuseEval(c, m, evalStep{expr, binds}, out)
+		reuseEval(c, m, evalStep{expr: expr, binds: binds}, out)
 		if c.Evals%2 == 0 {
 			checkEvalEntryPoints(c, m, expr, binds, out)
 		}
